@@ -27,6 +27,7 @@ class S(HasTraits):
     l = List(Int)
     k = List(Int)
     ld = List(Int)       # its default comes from a method (another default kind)
+    g_items = List(Int)  # a value trait whose NAME looks like an items companion
     c = Checked()
     c2 = Checked()
 
@@ -38,4 +39,5 @@ class S(HasTraits):
 
 
 GROUPS = {"n": "int", "m": "int", "s": "str", "t": "str", "l": "list", "k": "list", "ld": "list",
+          "g_items": "list",
           "c": "chk", "c2": "chk"}
